@@ -48,6 +48,8 @@ struct Shared {
     inbox: VecDeque<u8>,
     eof: bool,
     rerr: bool,
+    /// the kind of the injected read error (r<k>)
+    rkind: Option<io::ErrorKind>,
     werr: bool,
     written: Vec<u8>,
     waker: Option<Waker>,
@@ -151,7 +153,7 @@ impl AsyncRead for Transport {
         let mut s = self.0.lock().unwrap();
         if s.rerr {
             // persistent failure (e.g. a reset connection): nothing more is ever read
-            return Poll::Ready(Err(io::Error::new(io::ErrorKind::ConnectionReset, "injected read error")));
+            return Poll::Ready(Err(io::Error::new(s.rkind.unwrap_or(io::ErrorKind::ConnectionReset), "injected read error")));
         }
         if !s.inbox.is_empty() {
             let n = s.inbox.len().min(buf.remaining());
@@ -226,6 +228,7 @@ fn show_frame(fr: &Frame) -> String {
 fn show_perr(e: &MpdProtocolError) -> &'static str {
     match e {
         MpdProtocolError::InvalidMessage => "invalid",
+        MpdProtocolError::Io(e) if e.to_string().contains("injected") => "io",
         MpdProtocolError::Io(e) if e.kind() == io::ErrorKind::UnexpectedEof => "ueof",
         MpdProtocolError::Io(_) => "io",
     }
@@ -497,6 +500,11 @@ impl Driver {
                 wake_reader(&self.shared);
             }
             b'r' => {
+                const KINDS: [io::ErrorKind; 8] = [
+                    io::ErrorKind::ConnectionReset, io::ErrorKind::UnexpectedEof, io::ErrorKind::ConnectionAborted, io::ErrorKind::TimedOut,
+                    io::ErrorKind::BrokenPipe, io::ErrorKind::Other, io::ErrorKind::InvalidData, io::ErrorKind::NotConnected,
+                ];
+                self.shared.lock().unwrap().rkind = Some(KINDS[(id as usize) % KINDS.len()]);
                 self.shared.lock().unwrap().rerr = true;
                 wake_reader(&self.shared);
             }
